@@ -201,8 +201,10 @@ class COOData:
 
         """
         y = self.data * x[self.indices[1]]
-        # the product of, e.g., float data and an integer vector is float
-        z = np.zeros(x.shape, dtype=y.dtype)
+        # the product of, e.g., float data and an integer vector is float;
+        # it has one entry per row (test function), also when the trial
+        # and the test basis differ
+        z = np.zeros(int(self.shape[0]), dtype=y.dtype)
         np.add.at(z, self.indices[0], y)
         if D is not None:
             z[D] = x[D]
